@@ -56,6 +56,10 @@ def cls(c):
         return "field"
     if k.startswith("multi_one_bad"):
         return "multi_one_bad"
+    if k.startswith("collision:"):
+        return "collision"
+    if k.startswith("crowd:"):
+        return "crowd"
     if k.startswith("repeated_entry:"):
         return "repeated_entry"
     if k.startswith("fault:"):
@@ -77,14 +81,21 @@ def main():
         "the expected-signature oracle takes domain name and signing epoch from the OBJECT per the consensus spec (attestation: target epoch; exit: exit epoch; registration: genesis domain; others: epoch of the object's slot), never from core/eth2signeddata.go",
         "validatorapi.Component, the parsigex handler, its verifier and the gater are created once and serve every case of the run in order (as in production), so the objects of the default epoch, of both fork boundaries of the beacon mock and back again pass through the same components; a replay re-runs the history that preceded the failing case",
         "env faults: the eth2 client the components verify with is the beacon mock behind a wrapper that can make the k-th Spec/Domain/GenesisDomain/ForkSchedule lookup of a call fail with context.DeadlineExceeded, context.Canceled, a generic error, or hang until the caller's context ends (validator API: the harness cancels the request; parsigex: the handler's receive timeout, shortened on a second instance sharing verifier and gater). The label says whether the fault fired; under a fired fault the model's decision is Reject with any error class",
+        "the lock of the harness holds 205 validators: three ordinary ones, a pair found by a seeded, bounded and cached search whose public keys share the 6-hex-digit log abbreviation, and a crowd of 200; one more validator is known to the beacon node only",
         "endpoints not covered: SubmitValidatorRegistrations takes nothing in (checked: it never calls a subscriber); builder registrations are created by charon itself, not submitted by the VC; phase0/altair proposals are refused by the code ('unsupported version') and not generated; the HTTP router/JSON decoding in front of the Component is not driven (C14 covers decoding)",
         "parsigex is driven through the stream handler it registers (p2p.RegisterHandler) on a stub host, not over a libp2p network; the sender identity is not used by the verifier",
         "reflection enumerates leaf fields of the raw eth2 structures, first two (thorough: six) elements of every list; a field whose alteration does not change the signing root (signature-independent metadata, e.g. aggregation bits, blobs) is expected to be let in and is checked as such",
     ]
     R.proofs()
+    # application wiring (app/app.go), regenerated from the source on every run: translator/appwire -> coq/gen/AppWiring.v
+    rc_t, out_t = vp.run_translator("appwire", "AppWiring.v")
+    R.coverage["translator_appwire"] = out_t.strip().splitlines()[-1] if out_t.strip() else "rc=%d" % rc_t
+    if rc_t != 0:
+        R.broke("translator:appwire failed on %s/app/app.go (a construction shape it can not interpret; obligation C10_app_pubshares_by_share_index)" % vp.REPO, out_t[-3000:])
+    vp.sub_proofs(R, "C10_app", "app")
     leaves = 1000 if R.thorough else 5
     elems = 6 if R.thorough else 2
-    rc, out, od = vp.go_harness("gate", outdir=os.path.join(vp.WORK, "gate_%d" % os.getpid()), env_extra={"VERIF_LEAVES": leaves, "VERIF_ELEMS": elems})
+    rc, out, od = vp.go_harness("gate", outdir=os.path.join(vp.WORK, "gate_%d" % os.getpid()), env_extra={"VERIF_LEAVES": leaves, "VERIF_ELEMS": elems, "VERIF_CACHE": vp.WORK})
     if not os.environ.get("VERIF_REPLAY"):
         HIST.update({"hist_seed": R.seed, "hist_leaves": leaves, "hist_elems": elems})
     if rc != 0:
@@ -105,7 +116,7 @@ def main():
                           "(NewParSigEx + NewEth2Verifier + NewDutyGater); non-trivial = the request carries an alteration of an otherwise valid submission "
                           "(each reflection-enumerated leaf field with the original signature; the same re-signed with the right share; wrong share; wrong validator; other domain; other fork; zero/random/infinity/foreign-key signature; "
                           "validator unknown to the beacon node / not in the lock / index of another validator; peers: out-of-range/zero/negative/other share index, entry filed under another/unknown public key, "
-                          "duty outside the gater window (epoch offsets, the exact first/last slot of the window, and absolute slots 2^31, 2^53, 2^60, 2^63-1, 2^63, 2^64-1 around validly signed objects), objects whose own signing epoch is the first epoch of a fork of the beacon mock (2048, 50688; attestations with the slot still in the previous fork) signed for the own epoch and with the neighbouring fork's domain, and objects signed with a far-away fork's domain after the same component served that fork, objects at epochs 0, 1 and at the last epoch before / first epoch of every fork of the mock's schedule signed under the fork version the spec prescribes and under each other fork version of the schedule (compute_domain evaluated in the harness from the fork schedule, never GenesisDomain except for builder registrations), a beacon-node lookup fault of each kind at each lookup position around valid / wrong-share / wrong-domain / altered submissions, a signature that was let in once re-presented over altered content, requests of the batch-taking validator-API handlers with repeated (validator, slot) entries mixing valid and invalid items in every order (valid then wrong-share / zero / altered / other-fork, invalid then valid, valid then valid with other content, the same object twice, several validators interleaved), invalid duty type, bare-signature duty type, duty-type confusion, one bad entry among good ones at each position); distinct by hash of (endpoint, type, class, label)")
+                          "duty outside the gater window (epoch offsets, the exact first/last slot of the window, and absolute slots 2^31, 2^53, 2^60, 2^63-1, 2^63, 2^64-1 around validly signed objects), objects whose own signing epoch is the first epoch of a fork of the beacon mock (2048, 50688; attestations with the slot still in the previous fork) signed for the own epoch and with the neighbouring fork's domain, and objects signed with a far-away fork's domain after the same component served that fork, objects at epochs 0, 1 and at the last epoch before / first epoch of every fork of the mock's schedule signed under the fork version the spec prescribes and under each other fork version of the schedule (compute_domain evaluated in the harness from the fork schedule, never GenesisDomain except for builder registrations), a beacon-node lookup fault of each kind at each lookup position around valid / wrong-share / wrong-domain / altered submissions, a signature that was let in once re-presented over altered content, requests of the batch-taking validator-API handlers with repeated (validator, slot) entries mixing valid and invalid items in every order (valid then wrong-share / zero / altered / other-fork, invalid then valid, valid then valid with other content, the same object twice, several validators interleaved), submissions for two validators of the lock whose abbreviated public keys (core.PubKey.String()) collide -- genuine and cross-signed in both directions -- and for validators of a 200-strong crowd in the same lock, invalid duty type, bare-signature duty type, duty-type confusion, one bad entry among good ones at each position); distinct by hash of (endpoint, type, class, label)")
     table = collections.defaultdict(lambda: collections.Counter())
     outcome = collections.Counter()
     pre_texts = collections.Counter()
